@@ -1256,6 +1256,12 @@ func c19RunE2E(c *c19Case) (res Result) {
 
 var c19CapAtoms = []string{"A", "B", "Z", "0", "7", "42", "-", "_", "~", "%2F", "%41", "%20", "%C3%A9", "%2f", "X.Y", "K9", "$", "$1", "+", ",", "=", "@", ":"}
 
+// look-alikes of the absolute form inside an ORIGIN-form target: a scheme, "://", "//", userinfo,
+// host:port — in a path segment they are ordinary bytes (none starts with a slash: a rewritten
+// target must not begin with "//")
+var c19LookAlikes = []string{"http:", "u@h:80", ":80", "%3A%2F%2F", "u:p@"}
+var c19LookAlikesSlash = []string{"http://x", "a://b@c", "x//y", "s3://", "https://u:p@h:8/p", "HTTP://EX.test"}
+
 func c19GenCap(r *rand.Rand, allowSlash bool) string {
 	n := r.Intn(4)
 	var sb strings.Builder
@@ -1264,6 +1270,12 @@ func c19GenCap(r *rand.Rand, allowSlash bool) string {
 			sb.WriteString("/")
 		}
 		a := c19CapAtoms[r.Intn(len(c19CapAtoms))]
+		if r.Intn(6) == 0 {
+			a = c19LookAlikes[r.Intn(len(c19LookAlikes))]
+			if allowSlash && r.Intn(2) == 0 {
+				a = c19LookAlikesSlash[r.Intn(len(c19LookAlikesSlash))]
+			}
+		}
 		if strings.HasPrefix(a, "$") && r.Intn(3) != 0 {
 			a = "Q"
 		}
@@ -1283,6 +1295,11 @@ func c19GenQuery(r *rand.Rand) string {
 		// keys, encoded separators, empty pairs
 		qs = []string{"?q=a;b&x=1", "?a;b", "?x=%zz&y=2", "?x=1&y=%", "?x=%2&y=2", "?%zz", "?a=+&b=+c+", "?=v&k=&=", "?&&a=1&&",
 			"?k=1&k=2&k=1", "?a=%26%3D&b=%3d%26", "?a=b=c&d", "?x=1;y=2;z", "?p=%&q=;", "?a=1&b=%C3%28"}
+	} else if r.Intn(3) == 0 {
+		// URLs and other look-alikes of the absolute form as query values (redirect targets, callbacks):
+		// "://", "//", "@", a second "?" — the request target is still in origin form
+		qs = []string{"?to=http://example.com/landing", "?next=https://u:p@h:8/p?q=1", "?u=//x/y", "?r=a://b?c=d", "?x=@", "?cb=http://ex.test",
+			"?://", "?a=1&to=HTTP://EX.test/x", "?to=http%3A%2F%2Fx%2Fy", "?q=u@h:80&s=s3://bucket/key"}
 	}
 	return qs[r.Intn(len(qs))]
 }
@@ -1326,7 +1343,17 @@ func c19GenRule(r *rand.Rand, j int) c19RuleGen {
 		}
 		return ""
 	}
-	switch r.Intn(8) {
+	switch r.Intn(9) {
+	case 7: // the result of the rule matches the rule again: rewriting twice differs from rewriting once
+		pat := fmt.Sprintf("/re%d/*", j)
+		tmpl := []string{"/$1", fmt.Sprintf("/re%d/in/$1", j)}[r.Intn(2)]
+		return c19RuleGen{c19Rule{pat, tmpl}, func(r *rand.Rand) (string, string) {
+			cap := c19GenCap(r, true) + c19GenQuery(r)
+			if r.Intn(2) == 0 {
+				cap = fmt.Sprintf("re%d/", j) + cap
+			}
+			return pre(r) + fmt.Sprintf("/re%d/", j) + cap, c19Subst(tmpl, cap)
+		}}
 	case 0: // no star: suffix match (the regexp is not anchored at the start)
 		pat, tmpl := fmt.Sprintf("/old%d", j), fmt.Sprintf("/new%d", j)
 		return c19RuleGen{c19Rule{pat, tmpl}, func(r *rand.Rand) (string, string) {
@@ -1613,10 +1640,40 @@ func c19GenE2E(r *rand.Rand, tier string, weird bool) *c19Case {
 				rq.URI, rq.Want, rq.Rule = u, []string{w}, j+1
 			} else {
 				u := "/plain/" + c19GenCap(r, true) + c19GenQuery(r)
-				if r.Intn(10) == 0 {
+				switch r.Intn(10) {
+				case 0:
 					u = "/"
+				case 1, 2, 3:
+					// origin form with a URL inside: as query value or as the rest of the path; when there
+					// are rules the inner URL's path is one a rule WOULD match if the target were cut there
+					front := []string{"/plain/go?to=http://example.com", "/proxy/http://x.test", "/plain/r?a=1&u=HTTPS://u@h:8", "/p://h",
+						"//cdn.test/a://b", "//u@h:8/r?to=http://e"}[r.Intn(6)] // the last two: a path that begins with "//" is still origin form
+					u = front + "/landing"
+					if len(gens) > 0 {
+						j := r.Intn(len(gens))
+						for k := range gens { // an anchored rule, if there is one: it tells a cut target from an intact one
+							if strings.HasPrefix(gens[k].rule.Pat, "^") && r.Intn(3) != 0 {
+								j = k
+							}
+						}
+						inner, innerWant := gens[j].gen(r)
+						switch pat := gens[j].rule.Pat; {
+						case strings.HasPrefix(pat, "^"):
+							// anchored: the rule must NOT fire (it would if the target were cut at the inner URL)
+							u = front + inner
+						case !strings.HasPrefix(pat, "*"):
+							// not anchored: the rule matches where its literal starts, whatever precedes it
+							u, rq.Want, rq.Rule = front+inner, []string{innerWant}, j+1
+							if innerWant == inner {
+								rq.Want = []string{u}
+							}
+						}
+					}
 				}
-				rq.URI, rq.Want = u, []string{u}
+				rq.URI = u
+				if rq.Want == nil {
+					rq.Want = []string{u}
+				}
 			}
 			if c.Skipper && r.Intn(3) == 0 || r.Intn(25) == 0 {
 				rq.Skip = true // without a configured Skipper the header is an ordinary end-to-end header
